@@ -73,7 +73,7 @@ def embed(form, D, axis, vector_state):
             return Poly.atom(("Idc", a[1], 1))
         if a[0] == "F" and a[2] == D:
             return Poly.atom(("F", a[1], 1))
-        if a[0] == "Sum" and len(a[2]) == D:
+        if a[0] == "Sum" and (len(a[2]) == D or (len(a[2]) == 1 and as_poly(a[2][0]) == as_poly(N_) ** D)) and D > 1:
             return (N_ ** (D - 1)) * Poly.atom(("Sum", a[1], (N_,)))
         return None
 
